@@ -181,7 +181,9 @@ func (eng *RedisEmu) startServer() {
 		os.Exit(1)
 	}
 
+	eng.mu.Lock()
 	eng.server = server
+	eng.mu.Unlock()
 	eng.l.Infof("listening on %s", server.Addr().String())
 
 	// make a command dispatcher
